@@ -99,15 +99,46 @@ Theorem C01b_call_ok_open_target : forall ev g c t route evt, c_init c = true ->
 Proof. exact call_ok_open_target. Qed.
 Print Assumptions C01b_call_ok_open_target.
 
-(* [R] the hypothesis on events cannot be dropped: the duplicate completion report of C18b (a
-   decided record with retries left is reopened, its decision rewritten to false) leaves t2 staged
-   with a reference to a transition now recorded false.  Same definition and operation list as
-   C18b_decided_record_not_frozen_with_retries_left (replayed on the engine there). *)
-Theorem C01b_justified_refuted_by_duplicate_report :
-  ~ Justified (w_graph w_retry)
+(* [F] D33 (the retry of a completed task is evaluated only when the report changed its status): the protocol clause
+   no longer needs "no retry left".  From a fresh conductor, every state reached by API calls among which nobody
+   injects the engine's internal retry event is justified -- late, duplicate and malformed reports, reruns and
+   persists included *)
+Theorem C01b_reachable_justified_always : forall ev sp g inputs parent ops, out_tids_unique g ->
+  forallb op_no_retry ops = true -> Justified g (run_ops ev ops (fresh_state sp g inputs parent)).
+Proof. exact reachable_justified_always. Qed.
+Print Assumptions C01b_reachable_justified_always.
+
+(* [F] one call, general form (call_ok_w: as call_ok, without the demand on the retries left) *)
+Theorem C01b_api_justified_always : forall g ev, out_tids_unique g ->
+  forall op c c' res, op_in_protocol_w ev c op -> api_exec ev op c = (c', res) ->
+  Justified g c -> Justified g c'.
+Proof. exact api_justified_w. Qed.
+Print Assumptions C01b_api_justified_always.
+Theorem C01b_call_ok_w_unfold : forall ev c t route evt,
+  call_ok_w ev c t route evt <->
+  (is_engine_command t = true \/
+   (forall c1 u i r, ensure_ws ev c = (c1, u) -> ws_task_idx (c_ws c1) t route = Some i ->
+      nth_error (sequence (c_ws c1)) i = Some r -> r_next r = []) \/
+   (c_init c = true /\
+    forall i r, ws_task_idx (c_ws c) t route = Some i -> nth_error (sequence (c_ws c)) i = Some r ->
+      decided r -> r_next r <> [] ->
+      (status_in (ev_status evt) STARTING_STATUSES = true /\
+       exists s, get_staged_task (c_ws c) t route = Some s /\ s_completed s = false) \/
+      is_retry_event evt = false)).
+Proof. exact call_ok_w_unfold. Qed.
+Print Assumptions C01b_call_ok_w_unfold.
+
+(* The former refutation [R] of dropping the hypothesis on events is gone with the engine fix D33 (the retry of a
+   completed task is evaluated only when the report changed its status).  Before the fix the duplicate completion
+   report of C18b reopened a decided record with retries left and rewrote its decision to false, leaving t2 staged
+   with a reference to a transition recorded false.  Same definition and operation list (as
+   C18b_decided_record_kept_with_retries_left) now: the report is absorbed and the invariant holds of the result,
+   although the history is outside the hypothesis (call_ok). *)
+Theorem C01b_justified_kept_by_duplicate_report :
+  Justified (w_graph w_retry)
       (run_ops ev_w (w_ops1 ++ w_late :: w_ops3) (fresh_state w_spec (w_graph w_retry) [] [])).
-Proof. exact justified_refuted_by_duplicate_report. Qed.
-Print Assumptions C01b_justified_refuted_by_duplicate_report.
+Proof. exact justified_kept_by_duplicate_report. Qed.
+Print Assumptions C01b_justified_kept_by_duplicate_report.
 
 (* ---- "recorded satisfied" = "the condition evaluated true" ---- *)
 
@@ -138,8 +169,8 @@ Print Assumptions C01b_no_reference_unless_true.
 (* [F] that context is the one the completion step of update_task_state builds: the inbound
    context of the completed record, __current_task = {id, route, result reported by the event},
    __state = the serialized workflow state of that moment (holding the record's actual status) *)
-Theorem C01b_completion_ctx_shape : forall ev t route evt ts idx new c c' cx b,
-  uts_completion ev t route evt ts idx new c = (c', Val (Some (cx, b))) ->
+Theorem C01b_completion_ctx_shape : forall ev t route evt ts idx new old c c' cx b,
+  uts_completion ev t route evt ts idx new old c = (c', Val (Some (cx, b))) ->
   exists c1 r in_ctx result,
     nth_error (sequence (c_ws c1)) idx = Some r /\
     get_task_context (r_in r) c1 = (c1, Val in_ctx) /\
